@@ -7,7 +7,7 @@ From Coq Require Import String.
 From Coq Require Import List NArith Bool.
 From Wbxml Require Import Model.Codec Model.TablesDefs Gen.TablesData Model.Parser Model.Spec
      Proofs.ParserProofsBase Proofs.ParserProofsStr Proofs.ParserProofsAttr Proofs.ParserProofsElt Proofs.ParserProofsDoc
-     Proofs.ParserProofsTyped.
+     Proofs.ParserProofsTyped Proofs.ParserProofsStrict3.
 Import ListNotations.
 Local Open Scope N_scope.
 
@@ -74,6 +74,33 @@ Proof.
   exact (element_ok l tb ver cs Hcs Hwv typed_datetime_agree_proved sw tag attrs hasc items).
 Qed.
 Print Assumptions C04_element_partial.
+
+(* THE STRICT DECODER IS A PROVED ORACLE (FULL, no premise, every table).
+   Spec.decode = unser (pure grammar reader: shortest-form integers, no trailing bytes) + strict_doc (terminated
+   string table, references only to entry starts, no switchPage before an extension) + denote.
+   On the serialization of a strict well-formed document it returns exactly denote of that document ... *)
+Theorem C04_strict_reader_inverts_serialize : forall tbl forced d evs,
+  denote_with tbl forced d = Some evs -> unser (serialize d) = Some d.
+Proof. exact unser_serialize. Qed.
+Print Assumptions C04_strict_reader_inverts_serialize.
+
+Theorem C04_strict_decoder_roundtrip : forall tbl d evs,
+  denote tbl d = Some evs -> strict_doc d = true -> decode tbl (serialize d) = Some evs.
+Proof. exact decode_serialize. Qed.
+Print Assumptions C04_strict_decoder_roundtrip.
+
+(* ... also when the caller names the language (as the users of the encoder do) ... *)
+Theorem C04_strict_decoder_lang_roundtrip : forall tbl id d evs,
+  denote_with tbl (find (fun l => l_id l =? id) tbl) d = Some evs -> strict_doc d = true ->
+  decode_lang tbl id (serialize d) = Some evs.
+Proof. exact decode_lang_serialize. Qed.
+Print Assumptions C04_strict_decoder_lang_roundtrip.
+
+(* ... and whatever it accepts is the denotation of a strict document that it read from those bytes *)
+Theorem C04_strict_decoder_sound : forall tbl bs evs, decode tbl bs = Some evs ->
+  exists d, unser bs = Some d /\ strict_doc d = true /\ denote tbl d = Some evs.
+Proof. exact decode_sound. Qed.
+Print Assumptions C04_strict_decoder_sound.
 
 (* string-table references: any offset inside the table, also mid-string and into an unterminated tail *)
 Theorem C04_string_table_reference : forall l tb ver cs i s, cs_ok cs -> str_at tb i = Some s ->
